@@ -410,7 +410,7 @@ func c01(r *Report, s *Sem) {
 
 	// ---- R6
 	c01TextForms(r, s, R6)
-	R10 := r.Rule("R10", "a text form never drops a field: for every return of Node/Identity/MediaType.String() the fields that do not flow into the returned text are known empty (or the whole value zero) on the edge taken — otherwise two different values share one text and parsing cannot give the value back", 7)
+	R10 := r.Rule("R10", "a text form never drops a field: for every return of Node/Identity/MediaType.String() the fields that do not flow into the returned text are known empty (or the whole value zero) on the edge taken — otherwise two different values share one text and parsing cannot give the value back", 3)
 	c01TextComplete(r, s, R10)
 	R7 := r.Rule("R7", "text-form parsers return only verbatim pieces of their input (split/slice of the parameter, or a sibling parser applied to such a piece): no call may transform characters between the text and the parsed value, since the printer writes the fields verbatim", 3)
 	checkVerbatimParsers(r, R7)
@@ -774,6 +774,29 @@ func separators(fn *ssa.Function) (printed, split map[string]bool) {
 					}
 				}
 			}
+		case f.Pkg.Pkg.Path() == "fmt" && (f.Name() == "Fprintf" || f.Name() == "Appendf"):
+			if cs, ok := constString(stripConv(c.Common().Args[1])); ok {
+				lit := cs
+				for _, verb := range []string{"%v", "%s", "%d", "%q"} {
+					lit = strings.ReplaceAll(lit, verb, "\x00")
+				}
+				for _, part := range strings.Split(lit, "\x00") {
+					if part != "" {
+						printed[part] = true
+					}
+				}
+			}
+		case (f.Pkg.Pkg.Path() == "strings" || f.Pkg.Pkg.Path() == "bytes") && f.Signature.Recv() != nil && (f.Name() == "WriteString" || f.Name() == "WriteByte" || f.Name() == "WriteRune"):
+			arg := stripConv(c.Common().Args[len(c.Common().Args)-1])
+			if cs, ok := constString(arg); ok && cs != "" {
+				printed[cs] = true
+			} else if k, ok := constInt(arg); ok && k > 0 && k < 0x110000 {
+				printed[string(rune(k))] = true
+			}
+		case f.Pkg.Pkg.Path() == "strings" && f.Name() == "Join":
+			if cs, ok := constString(stripConv(c.Common().Args[1])); ok && cs != "" {
+				printed[cs] = true
+			}
 		case f.Pkg.Pkg.Path() == "strings" && (f.Name() == "Split" || f.Name() == "SplitN" || f.Name() == "Cut" || f.Name() == "Index" || f.Name() == "LastIndex" || f.Name() == "SplitAfter" || f.Name() == "SplitAfterN"):
 			if cs, ok := constString(stripConv(c.Common().Args[1])); ok {
 				split[cs] = true
@@ -824,21 +847,133 @@ func c01TextForms(r *Report, s *Sem, R6 string) {
 		r.Check(R6, "type "+tf.typ+" / UnmarshalText uses "+tf.parser, p.pos(ut.Pos()), callsFn(ut, ps), "UnmarshalText must parse through "+tf.parser)
 	}
 	// nesting: Node's parser hands element 0 to the identity parser, and Node's printer prints the identity first
-	if pn, pi := p.Func("ParseNode"), p.Func("ParseIdentity"); pn != nil && pi != nil {
+	if pn, pi := p.Func("ParseNode"), p.Func("ParseIdentity"); pn != nil && pi != nil && len(pn.Params) > 0 {
 		ok := false
+		nCalls, bad := 0, 0
+		in := pn.Params[0]
+		sepIs := func(v ssa.Value) bool {
+			v = stripConv(v)
+			if cs, isC := constString(v); isC {
+				return cs == "/"
+			}
+			k, isK := constInt(v)
+			return isK && k == '/'
+		}
+		// positionOfSep: v = strings.Index*(in, '/')
+		positionOfSep := func(v ssa.Value) bool {
+			call, _ := callOf(stripConv(v))
+			if call == nil {
+				return false
+			}
+			g := call.Call.StaticCallee()
+			return g != nil && g.Pkg != nil && g.Pkg.Pkg.Path() == "strings" && strings.HasPrefix(g.Name(), "Index") && len(call.Call.Args) == 2 && stripConv(call.Call.Args[0]) == ssa.Value(in) && sepIs(call.Call.Args[1])
+		}
+		// beforeSep: the leaf is the text of the input before its first '/'
+		beforeSep := func(l ssa.Value) bool {
+			l = stripConv(l)
+			switch x := l.(type) {
+			case *ssa.UnOp: // strings.Split(in, "/")[0]
+				if ia, ok3 := x.X.(*ssa.IndexAddr); ok3 {
+					if k, ok4 := constInt(ia.Index); ok4 && k == 0 {
+						for _, o := range leaves(ia.X) {
+							call, _ := callOf(o)
+							if call == nil {
+								return false
+							}
+							g := call.Call.StaticCallee()
+							if g == nil || g.Pkg == nil || g.Pkg.Pkg.Path() != "strings" || !strings.HasPrefix(g.Name(), "Split") || stripConv(call.Call.Args[0]) != ssa.Value(in) || !sepIs(call.Call.Args[1]) {
+								return false
+							}
+						}
+						return true
+					}
+				}
+			case *ssa.Slice: // in[:strings.IndexByte(in, '/')]
+				if stripConv(x.X) == ssa.Value(in) && (x.Low == nil || isZeroInt(x.Low)) && x.High != nil && positionOfSep(x.High) {
+					return true
+				}
+			case *ssa.Extract: // before, _, _ := strings.Cut(in, "/")
+				if call, _ := callOf(x.Tuple); call != nil && x.Index == 0 {
+					g := call.Call.StaticCallee()
+					return g != nil && g.Pkg != nil && g.Pkg.Pkg.Path() == "strings" && g.Name() == "Cut" && stripConv(call.Call.Args[0]) == ssa.Value(in) && sepIs(call.Call.Args[1])
+				}
+			}
+			return false
+		}
 		eachCall(pn, func(c ssa.CallInstruction) {
 			if staticCallee(c) != pi {
 				return
 			}
-			if u, ok2 := stripConv(c.Common().Args[0]).(*ssa.UnOp); ok2 {
-				if ia, ok3 := u.X.(*ssa.IndexAddr); ok3 {
-					if k, ok4 := constInt(ia.Index); ok4 && k == 0 {
-						ok = true
-					}
+			all, n, whole := true, 0, false
+			ls := leaves(c.Common().Args[0])
+			for _, l := range ls {
+				n++
+				if stripConv(l) == ssa.Value(in) {
+					whole = true
+					continue
+				}
+				if !beforeSep(l) {
+					all = false
 				}
 			}
+			if whole {
+				// the whole input is its own "part before the separator" only where no separator was found: either
+				// as the other value of the same choice (prefix-or-whole), or under a guard that says so
+				if n > 1 {
+					// prefix-or-whole: fine as long as the other leaves are prefixes (checked above)
+				} else {
+					all = all && condGuard(c.Block(), func(cd Cond) bool {
+						// strings.Index*(in, '/') < 0
+						if cd.Op == token.LSS || cd.Op == token.EQL {
+							if positionOfSep(cd.X) {
+								if k, isK := constInt(stripConv(cd.Y)); isK && ((cd.Op == token.LSS && k == 0) || (cd.Op == token.EQL && k == -1)) {
+									return true
+								}
+							}
+						}
+						// len(prefix-or-whole) == len(in)
+						if cd.Op == token.EQL {
+							for _, pair := range [][2]ssa.Value{{cd.X, cd.Y}, {cd.Y, cd.X}} {
+								a, b := lenArg(pair[0]), lenArg(pair[1])
+								if a == nil || b == nil || stripConv(b) != ssa.Value(in) {
+									continue
+								}
+								okP, hasPrefix := true, false
+								for _, l := range leaves(a) {
+									if stripConv(l) == ssa.Value(in) {
+										continue
+									}
+									if beforeSep(l) {
+										hasPrefix = true
+									} else {
+										okP = false
+									}
+								}
+								if okP && hasPrefix {
+									return true
+								}
+							}
+						}
+						// !strings.Contains(in, "/")
+						if cd.Op == token.ILLEGAL && !cd.True {
+							if call, _ := callOf(cd.Val); call != nil {
+								g := call.Call.StaticCallee()
+								if g != nil && g.Pkg != nil && g.Pkg.Pkg.Path() == "strings" && strings.HasPrefix(g.Name(), "Contains") && stripConv(call.Call.Args[0]) == ssa.Value(in) && sepIs(call.Call.Args[1]) {
+									return true
+								}
+							}
+						}
+						return false
+					})
+				}
+			}
+			nCalls++
+			if !all || n == 0 {
+				bad++
+			}
 		})
-		r.Check(R6, "func ParseNode / identity is the part before the instance separator", p.pos(pn.Pos()), ok, "ParseNode must parse element 0 of the '/' split as the identity")
+		ok = nCalls > 0 && bad == 0
+		r.Check(R6, "func ParseNode / identity is the part before the instance separator", p.pos(pn.Pos()), ok, "every ParseIdentity call in ParseNode gets the text before the first '/' (element 0 of the split, input[:index of '/'], or the whole input where no separator was found)")
 	}
 	for _, et := range []string{"SessionState", "NotificationEvent", "CommandMethod"} {
 		nt := p.Type(et)
@@ -1067,6 +1202,61 @@ func c01TextComplete(r *Report, s *Sem, R string) {
 					if x.Call.IsInvoke() {
 						rec(x.Call.Value, d+1)
 					}
+					// an accumulator (strings.Builder, bytes.Buffer) read out here: what was written into it before
+					if len(x.Call.Args) > 0 {
+						if acc, ok := stripConv(x.Call.Args[0]).(*ssa.Alloc); ok {
+							for _, w := range accumulatorWrites(acc, x) {
+								// the write certainly happened, or was skipped only because the very field it writes is empty
+								sub := map[int]bool{}
+								saveUsed := used
+								used = sub
+								for _, a := range w.Common().Args {
+									if stripConv(a) != ssa.Value(acc) {
+										rec(a, d+1)
+									}
+								}
+								used = saveUsed
+								wb := w.Block()
+								if wb.Dominates(x.Block()) {
+									for k := range sub {
+										used[k] = true
+									}
+									continue
+								}
+								need := map[edge]bool{}
+								for _, me := range mustEdges(x.Block()) {
+									need[me] = true
+								}
+								for k := range sub {
+									okK := true
+									for _, me := range mustEdges(wb) {
+										if need[me] {
+											continue
+										}
+										isFieldTest := false
+										for _, c := range impliedConds(ifOf(me.from), me.succ == 0) {
+											if c.Op != token.NEQ {
+												continue
+											}
+											cx, cy := c.X, c.Y
+											if zeroConst(cx) {
+												cx, cy = cy, cx
+											}
+											if zeroConst(cy) && (fieldOfVal(cx) == k || fieldOfVal(cx) == -2) {
+												isFieldTest = true
+											}
+										}
+										if !isFieldTest {
+											okK = false
+										}
+									}
+									if okK {
+										used[k] = true
+									}
+								}
+							}
+						}
+					}
 				case *ssa.MakeInterface:
 					rec(x.X, d+1)
 				case *ssa.ChangeType:
@@ -1104,17 +1294,7 @@ func c01TextComplete(r *Report, s *Sem, R string) {
 			rec(v, 0)
 			return used
 		}
-		isZero := func(v ssa.Value) bool {
-			c, ok := stripConv(v).(*ssa.Const)
-			if !ok {
-				return false
-			}
-			if c.Value == nil {
-				return true
-			}
-			cs, isS := constString(c)
-			return isS && cs == ""
-		}
+		isZero := zeroConst
 		groups := map[string][]retLeaf{}
 		var order []string
 		for _, rl := range returnLeaves(fn, 0) {
@@ -1180,4 +1360,63 @@ func c01TextComplete(r *Report, s *Sem, R string) {
 			r.Check(R, "func "+fnName(fn)+" / text form without {"+key+"} only when empty", pos, okAll, detail)
 		}
 	}
+}
+
+// zeroConst: the zero value of its type as a constant ("" or the zero aggregate).
+func zeroConst(v ssa.Value) bool {
+	if v == nil {
+		return false
+	}
+	c, ok := stripConv(v).(*ssa.Const)
+	if !ok {
+		return false
+	}
+	if c.Value == nil {
+		return true
+	}
+	cs, isS := constString(c)
+	return isS && cs == ""
+}
+
+// accumulatorWrites: the calls, other than `read`, that receive the address of the local accumulator acc (directly or as
+// an io.Writer) and can run before read.
+func accumulatorWrites(acc *ssa.Alloc, read *ssa.Call) []ssa.CallInstruction {
+	var out []ssa.CallInstruction
+	add := func(in ssa.Instruction) {
+		c, ok := in.(ssa.CallInstruction)
+		if !ok || in == ssa.Instruction(read) {
+			return
+		}
+		if reachesInstr(in, read) {
+			out = append(out, c)
+		}
+	}
+	for _, ref := range *acc.Referrers() {
+		switch x := ref.(type) {
+		case *ssa.MakeInterface:
+			for _, r2 := range *x.Referrers() {
+				add(r2)
+			}
+		default:
+			add(ref)
+		}
+	}
+	return out
+}
+
+func isZeroInt(v ssa.Value) bool {
+	k, ok := constInt(stripConv(v))
+	return ok && k == 0
+}
+
+// lenArg: v is len(x) → x.
+func lenArg(v ssa.Value) ssa.Value {
+	call, _ := callOf(stripConv(v))
+	if call == nil {
+		return nil
+	}
+	if b, ok := call.Call.Value.(*ssa.Builtin); ok && b.Name() == "len" {
+		return call.Call.Args[0]
+	}
+	return nil
 }
